@@ -84,9 +84,7 @@ func RunC06(tier string) int {
 		if r.PreState != "same" {
 			run.Nontrivial(r.Kind + "|" + r.PreState + "|" + strings.Join(r.Features, ","))
 		}
-		if r.ID < 3 {
-			run.Sample(r)
-		}
+		run.Sample(r)
 		for _, l := range r.Leads {
 			run.Count("lead:"+l, 1)
 		}
